@@ -291,7 +291,37 @@ func checkC01(cx *Ctx, r *Report) {
 		// not the text of the user-info lookup's error (which storage composes from the user's record)
 		if idx+1 < len(c.Common().Args) {
 			var leaks []string
-			for _, l := range vf.Deep(vf.Labels(c.Common().Args[idx+1])).leaves() {
+			msgL := vf.Deep(vf.Labels(c.Common().Args[idx+1]))
+			// a message taken out of an error value (errors.Unwrap / errors.As / a method of a typed error): everything
+			// the module's error types can carry may end up in it
+			fromErr := false
+			for l := range msgL {
+				if strings.HasPrefix(l, "ext:errors.") || strings.HasPrefix(l, "alloc:{") || strings.HasPrefix(l, "dyncall:") {
+					fromErr = true
+				}
+			}
+			if fromErr {
+				for _, fn := range w.Funcs {
+					recv := fn.Signature.Recv()
+					if recv == nil || fn.Name() != "Error" || !vf.scope[fn] && false {
+						continue
+					}
+					st, isSt := derefType(recv.Type()).Underlying().(*types.Struct)
+					if !isSt {
+						continue
+					}
+					tk := typeKey(derefType(recv.Type()))
+					for i := 0; i < st.NumFields(); i++ {
+						fl, sites := vf.FieldStoreSources(tk, fname(st.Field(i)))
+						if len(sites) > 0 {
+							for l2, f2 := range vf.Deep(fl) {
+								msgL[l2] |= f2
+							}
+						}
+					}
+				}
+			}
+			for _, l := range msgL.leaves() {
 				if strings.Contains(l, "AuthRequestInt.GetUserID#") || strings.HasPrefix(l, "param:provider.(*Attributes).") || strings.Contains(l, ".SetUserinfoWithUserID#") || strings.HasPrefix(l, "alloc:{provider.Attributes}") {
 					leaks = append(leaks, l)
 				}
